@@ -107,6 +107,17 @@ func (v *VerifC10) Reset(shardKey, replicaKey int32, shortWindow int, historicWi
 	agent.VerifC10SetHistoricWindow(a.sh2, historicWindow)
 }
 
+// SetShortWindow replaces configR the way updateConfigRemotelyExperimental does (a.configR = config under configMu)
+// with a copy that differs in ShortWindow only.
+func (v *VerifC10) SetShortWindow(shortWindow int) {
+	a := v.a
+	a.configMu.Lock()
+	config := a.configR
+	config.ShortWindow = shortWindow
+	a.configR = config
+	a.configMu.Unlock()
+}
+
 // Advance calls the real advanceRecentBuckets(now) and returns the times of the buckets it handed out for
 // sending and the times of the recent window afterwards (in slice order).
 func (v *VerifC10) Advance(now uint32, initial bool) (ready []uint32, window []uint32) {
